@@ -55,6 +55,42 @@ for _n in ("tolist", "item", "view", "reshape", "__iter__", "__len__"):
     getattr(NArr, _n)._pyvc_native = True
 
 
+class AttrDict(dict):
+    """node.attributes: a dict[str, Attr] with onnx_ir's typed accessors (onnx_ir.Attributes.get_int/get_float/...:
+    'the attribute's value if present, else the default' — a dependency, modelled)."""
+
+    def _val(self, key, default, meth):
+        if key in self:
+            a = self[key]
+            return a.fields["value"] if isinstance(a, SObj) else getattr(a, meth)()
+        return default
+
+    def get_int(self, key, default=None):
+        return self._val(key, default, "as_int")
+
+    def get_float(self, key, default=None):
+        return self._val(key, default, "as_float")
+
+    def get_ints(self, key, default=None):
+        return self._val(key, default, "as_ints")
+
+    def get_floats(self, key, default=None):
+        return self._val(key, default, "as_floats")
+
+    def get_string(self, key, default=None):
+        return self._val(key, default, "as_string")
+
+    def get_tensor(self, key, default=None):
+        return self._val(key, default, "as_tensor")
+
+    def get_graph(self, key, default=None):
+        return self._val(key, default, "as_graph")
+
+
+for _n in ("get_int", "get_float", "get_ints", "get_floats", "get_string", "get_tensor", "get_graph", "_val"):
+    getattr(AttrDict, _n)._pyvc_native = True
+
+
 class World:
     def __init__(self, interp):
         import onnx_ir as ir
@@ -160,7 +196,7 @@ class World:
             a.fields.update(name=k, value=val, type=None)
             ad[k] = a
         outs = [self.value(f"{op_type}_out{i}") for i in range(outputs)] if isinstance(outputs, int) else list(outputs)
-        n.fields.update(op_type=op_type, domain=domain, inputs=list(inputs), outputs=outs, attributes=ad, name="n_" + op_type,
+        n.fields.update(op_type=op_type, domain=domain, inputs=list(inputs), outputs=outs, attributes=AttrDict(ad), name="n_" + op_type,
                         version=version, graph=None, meta={}, metadata_props={})
         return n
 
